@@ -33,7 +33,7 @@ def run(ctx):
     ctx.tlc_ok(small, "MCDoc small")
     cases = []
     runs = [("small", small)]
-    for cfg, what in (("MCDoc_fields_t.cfg" if thorough else "MCDoc_fields_q.cfg", "fields"), ("MCDoc_lists.cfg", "lists")):
+    for cfg, what in (("MCDoc_fields_t.cfg" if thorough else "MCDoc_fields_q.cfg", "fields"), ("MCDoc_lists_t.cfg" if thorough else "MCDoc_lists_q.cfg", "lists")):
         res = ctx.tlc("MCDoc", cfg, workers=4, timeout=1800, coverage=False, label=f"exhaustive ({what}, limit 255): {INVS}")
         ctx.tlc_ok(res, f"MCDoc {what}")
         runs.append((what, res))
